@@ -137,4 +137,28 @@ def optics (nbrs : Option (Nat → List Nat)) (dist : Nat → Nat → D) (mp n :
   | none => (List.range n).map fun i => { index := i, core := none, reach := none }
   | some f => ((List.range n).foldl (outerStep f dist mp n) (init n)).out
 
+/-! ## hyper-parameter glue (`optics/hyperparams.rs`) -/
+
+structure Params (α : Type) where
+  minPoints : Nat
+  tolerance : α
+deriving Repr, DecidableEq
+
+inductive ParamsError where
+  | minPoints
+  | tolerance
+deriving Repr, DecidableEq
+
+/-- `OpticsParams::new(min_points, ..)`: `inf` is `F::infinity()` -/
+def Params.new {α : Type} (inf : α) (mp : Nat) : Params α := { minPoints := mp, tolerance := inf }
+
+def Params.withTolerance {α : Type} (p : Params α) (t : α) : Params α := { p with tolerance := t }
+
+/-- `ParamGuard::check_ref` / `check`: `tolerance <= 0` is tested first, then `min_points <= 1`
+(the other order than DBSCAN) -/
+def Params.check {α : Type} [LE α] [DecidableLE α] [OfNat α 0] (p : Params α) : Except ParamsError (Params α) :=
+  if p.tolerance ≤ 0 then .error .tolerance
+  else if p.minPoints ≤ 1 then .error .minPoints
+  else .ok p
+
 end LinfaSpec.Optics
